@@ -148,6 +148,7 @@ pub fn uf_to_json(f: &UF) -> J {
         UF::Fail(k) => json!({"k": "fail", "n": k}),
         UF::IntPlus5 => json!({"k": "intplus5"}),
         UF::FirstNumber => json!({"k": "firstnumber"}),
+        UF::NotFound(n) => json!({"k": "notfound", "name": n}),
     }
 }
 
@@ -159,6 +160,7 @@ pub fn uf_from_json(j: &J) -> Option<UF> {
         "fail" => UF::Fail(j["n"].as_u64()? as u32),
         "intplus5" => UF::IntPlus5,
         "firstnumber" => UF::FirstNumber,
+        "notfound" => UF::NotFound(j["name"].as_str()?.to_string()),
         _ => return None,
     })
 }
